@@ -7,6 +7,7 @@ package main
 import (
 	"fmt"
 	"go/token"
+	"go/types"
 	"strings"
 
 	"golang.org/x/tools/go/ssa"
@@ -17,8 +18,8 @@ func isInstance(f *ssa.Function) bool { return len(f.TypeArgs()) > 0 }
 // refSite: a call in fn that has (or may have, through its callee) a REF effect.
 type refSite struct {
 	Call     *Call
-	Direct   bool   // primitive REF at this site
-	Effect   string // e.g. REF:UpdateRef
+	Direct   bool              // primitive REF at this site
+	Effect   string            // e.g. REF:UpdateRef
 	BoolTrue []*ssa.BasicBlock // for indirect sites returning (bool, error): blocks entered when the bool is true
 }
 
@@ -397,7 +398,7 @@ func checkAncestry(c *Ctx, fn *ssa.Function) {
 	w := c.W
 	fname := funcName(fn)
 	type cmp struct {
-		bo               *ssa.BinOp
+		bo               ssa.Value // the boolean: an == of a list element with a head, or the result of a membership predicate
 		listSide, single string
 	}
 	var cmps []cmp
@@ -449,10 +450,85 @@ func checkAncestry(c *Ctx, fn *ssa.Function) {
 			}
 		}
 	}
+	// the same test delegated to a membership predicate: a closure of fn, a same-package helper, or slices.Contains
+	classifyV := func(v ssa.Value) (string, string) {
+		if lc := hasOriginCall(v, "repository.RepoData.ListCommits", 0); lc != nil {
+			return "list", sideOfCall(lc)
+		}
+		if rc := hasOriginCall(v, "repository.RepoData.ResolveRef", 0); rc != nil {
+			return "head", sideOfCall(rc)
+		}
+		return "", ""
+	}
+	for _, cl := range Calls(fn) {
+		cv, isCall := cl.Instr.(*ssa.Call)
+		if !isCall {
+			continue
+		}
+		var listV, targetV ssa.Value
+		switch {
+		case cl.Name == "slices.Contains" && len(cv.Common().Args) == 2:
+			listV, targetV = cv.Common().Args[0], cv.Common().Args[1]
+		default:
+			var callee *ssa.Function
+			var mc *ssa.MakeClosure
+			if m, isMC := cv.Common().Value.(*ssa.MakeClosure); isMC {
+				mc = m
+				callee, _ = m.Fn.(*ssa.Function)
+			} else if f := cv.Common().StaticCallee(); f != nil && f.Pkg == fn.Pkg {
+				callee = f
+			}
+			if callee == nil {
+				continue
+			}
+			mp := membershipPred(callee)
+			if mp == nil {
+				continue
+			}
+			resolve := func(v ssa.Value) ssa.Value {
+				switch x := v.(type) {
+				case *ssa.Parameter:
+					for i, pp := range callee.Params {
+						if pp == x && i < len(cv.Common().Args) {
+							return cv.Common().Args[i]
+						}
+					}
+				case *ssa.FreeVar:
+					if mc != nil {
+						for i, fv := range callee.FreeVars {
+							if fv == x && i < len(mc.Bindings) {
+								b := mc.Bindings[i]
+								// a captured variable is a cell: its content at the call
+								if al, isAl := b.(*ssa.Alloc); isAl {
+									for _, r := range *al.Referrers() {
+										if st, isSt := r.(*ssa.Store); isSt && st.Addr == ssa.Value(al) {
+											return st.Val
+										}
+									}
+								}
+								return b
+							}
+						}
+					}
+				}
+				return nil
+			}
+			listV, targetV = resolve(mp.list), resolve(mp.target)
+		}
+		if listV == nil || targetV == nil {
+			continue
+		}
+		kl, sl := classifyV(listV)
+		kt, st := classifyV(targetV)
+		if kl == "list" && kt == "head" {
+			c.Sites++
+			cmps = append(cmps, cmp{cv, sl, st})
+		}
+	}
 	seenLocalList, seenRemoteList := false, false
 	for _, cm := range cmps {
 		key := fname + ":" + cm.single + "-head-in-" + cm.listSide + "-commits"
-		pos := w.InstrPos(cm.bo)
+		pos := w.InstrPos(cm.bo.(ssa.Instruction))
 		if cm.listSide == cm.single || cm.listSide == "?" || cm.single == "?" {
 			c.Violate("R2.4", key, pos, "ancestry test compares a head with the commit list of the same side (always true): operands swapped")
 			continue
@@ -892,4 +968,99 @@ func sameMap(a, b ssa.Value) bool {
 	ua, oka := a.(*ssa.UnOp)
 	ub, okb := b.(*ssa.UnOp)
 	return oka && okb && ua.X == ub.X
+}
+
+// membershipPred recognises a function or closure that returns true iff some element of a slice
+// equals a target, slice and target each being a parameter or a captured variable of it.
+type memPred struct{ list, target ssa.Value }
+
+func membershipPred(f *ssa.Function) *memPred {
+	if f == nil || len(f.Blocks) == 0 || f.Signature.Results().Len() != 1 {
+		return nil
+	}
+	if bt, ok := f.Signature.Results().At(0).Type().Underlying().(*types.Basic); !ok || bt.Kind() != types.Bool {
+		return nil
+	}
+	root := func(v ssa.Value) ssa.Value { // parameter or free variable behind v
+		for i := 0; i < 4; i++ {
+			switch x := v.(type) {
+			case *ssa.Parameter, *ssa.FreeVar:
+				return x
+			case *ssa.UnOp:
+				if x.Op != token.MUL {
+					return nil
+				}
+				// load of a captured cell, or of a spilled parameter
+				if fv, isFV := x.X.(*ssa.FreeVar); isFV {
+					return fv
+				}
+				if al, isAl := x.X.(*ssa.Alloc); isAl {
+					for _, r := range *al.Referrers() {
+						if st, isSt := r.(*ssa.Store); isSt && st.Addr == ssa.Value(al) {
+							v = st.Val
+						}
+					}
+					continue
+				}
+				return nil
+			default:
+				return nil
+			}
+		}
+		return nil
+	}
+	var out *memPred
+	nTrue, nFalse := 0, 0
+	for _, r := range Returns(f) {
+		k, isK := r.Results[0].(*ssa.Const)
+		if !isK || k.Value == nil {
+			return nil
+		}
+		if k.Value.String() == "false" {
+			nFalse++
+			continue
+		}
+		nTrue++
+		found := false
+		for _, cc := range controlConds(r.Block(), nil) {
+			bo, isBo := cc.If.Cond.(*ssa.BinOp)
+			if !isBo || bo.Op != token.EQL || cc.Edge != 0 {
+				continue
+			}
+			for _, pr := range [][2]ssa.Value{{bo.X, bo.Y}, {bo.Y, bo.X}} {
+				ld, isLd := pr[0].(*ssa.UnOp)
+				if !isLd {
+					continue
+				}
+				ia, isIA := ld.X.(*ssa.IndexAddr)
+				if !isIA {
+					continue
+				}
+				l, t := root(ia.X), root(pr[1])
+				if l != nil && t != nil && l != t {
+					out = &memPred{l, t}
+					found = true
+				}
+			}
+		}
+		if !found {
+			return nil
+		}
+	}
+	if nTrue == 0 || nFalse == 0 {
+		return nil
+	}
+	// the scan is not left early otherwise
+	if exits, _ := earlyLoopExits(f); len(exits) > 0 {
+		for _, e := range exits {
+			// leaving the loop to 'return true' is the point of the predicate
+			if r, isRet := e.To.Instrs[len(e.To.Instrs)-1].(*ssa.Return); isRet {
+				if k, isK := r.Results[0].(*ssa.Const); isK && k.Value != nil && k.Value.String() == "true" {
+					continue
+				}
+			}
+			return nil
+		}
+	}
+	return out
 }
